@@ -103,3 +103,54 @@ def reads(chunks, dt=0):
 
 def random_cuts(rng, n, k):
     return sorted(rng.sample(range(1, n), min(k, max(0, n - 1)))) if n > 1 else []
+
+
+def limit_chunks(chunks, maxlen=65536):
+    out = []
+    for c in chunks:
+        while len(c) > maxlen:
+            out.append(c[:maxlen])
+            c = c[maxlen:]
+        if c:
+            out.append(c)
+    return out
+
+
+def segmentations(rng, data, kinds=('whole', 'bytes', 'rand')):
+    """named segmentations of one byte stream"""
+    out = []
+    for k in kinds:
+        if k == 'whole':
+            out.append(('whole', limit_chunks([data])))
+        elif k == 'bytes':
+            out.append(('bytes', [data[i:i + 1] for i in range(len(data))]))
+        else:
+            n = rng.choice([1, 2, 3, 5, 9])
+            out.append(('rand%d' % n, limit_chunks(cut(data, random_cuts(rng, len(data), n)))))
+    return out
+
+
+def check_corr(res, pairs):
+    """record model/implementation disagreements and harness crashes; returns usable pairs"""
+    ok = []
+    for js, line, real, model in pairs:
+        if isinstance(real, dict):
+            res.crashes.append(real)
+            continue
+        res.traces_validated += 1
+        if model is not None and real != model:
+            res.diffs.append(dict(input=line[:4000], real=real[-1500:], model=model[-1500:], scenario=js))
+        ok.append((js, line, real, model))
+    return ok
+
+
+def replay_core(rp):
+    sc_json = rp.get('scenario') or (rp.get('input') if isinstance(rp.get('input'), dict) else None)
+    if sc_json is None and isinstance(rp.get('first_disagreement'), dict):
+        sc_json = rp['first_disagreement'].get('scenario')
+    if sc_json is None:
+        print('replay file names a broken obligation, no concrete input: %s' % rp.get('broken'))
+        return 0
+    sc = scenario_from_json(sc_json)
+    print(run_real(sc))
+    return 0
